@@ -39,7 +39,7 @@ TAL_BASIC = [K("k3::S-Define"), K("k3::S-Condition"), K("k3::S-Content"), K("k3:
              K("k3::S-OmitTag-empty"), K("k3::S-OmitTag-selfclosing"),
              K("k3::S-Attribute"), K("k3::S-Repeat")]
 
-S_TALES = [K("k3::S-Pipe3"), K("k3::S-Not"), K("k3::S-Exists")]
+S_TALES = [K("k3::S-Pipe3"), K("k3::S-Not"), K("k3::S-Exists"), K("k3::S-LambdaScope")]
 S_INTERP = [K("k3::S-Interp-text"), K("k3::S-Interp-off")]
 S_I18N = [K("k3::S-Translate-name"), K("k3::S-Translate-id"), K("k3::S-Translate-empty"),
           K("k3::S-I18nDomain"), K("k3::S-I18nContext"), K("k3::S-I18nTarget")]
@@ -75,7 +75,8 @@ PROPS = {
     "C06": k3prop(
         "Emitted code for ${...} in text is proved to append the literal parts unchanged with $$ "
         "un-doubled, each expression converted once; with meta:interpolation off nothing is evaluated.",
-        S_INTERP + [U('pyvc.frames', 'instance_state', 'instance_state')],
+        S_INTERP + [U('pyvc.frames', 'instance_state', 'instance_state'),
+                    U('bounded.units', 'interp', 'B-INTERP')],
         ["the delimiter search of Interpolator.__call__ (regex + validity loop; bounded stand-in pending)",
          "attribute / comment / CDATA contexts (pending)", "entity decoding of the expression text"]),
     "C07": k3prop(
@@ -210,7 +211,7 @@ PROPS = {
         "Non-strict compilation is proved (on the emitted code) to raise the original ExpressionError, "
         "with the invalid expression's token and position, if and only if rendering reaches it; strict "
         "compilation is checked to reject the same template with that token and offset.",
-        [K("k3::S-Deferred"), K("k3::S-Strict-rejects"),
+        [K("k3::S-Deferred"), K("k3::S-Deferred-twice"), K("k3::S-Strict-rejects"),
          U('pyvc.frames', 'strict_reads_frame', 'strict.reads_frame'),
          U('pyvc.frames', 'strict_identity', 'strict_identity', needs_k3=True)],
         ["pickle round trip of ExpressionError (bounded stand-in pending)"]),
@@ -218,7 +219,8 @@ PROPS = {
         "Text-mode templates: the emitted code is proved to copy the source text ('<', '&', tags "
         "included) with each ${expr} replaced by the unescaped string form and $$ by $, also when the "
         "text starts with markup characters.",
-        [K("k3::S-TextMode"), K("k3::S-TextMode-lt"), K("k3::S-TextMode-endtag")],
+        [K("k3::S-TextMode"), K("k3::S-TextMode-lt"), K("k3::S-TextMode-endtag"),
+         U('bounded.units', 'interp', 'B-INTERP')],
         ["delimiter search of Interpolator.__call__ (bounded stand-in pending)",
          "PageTextTemplateFile.render encoding (pending)"]),
     "C01": {
